@@ -212,8 +212,13 @@ func (c *JSONClient) GetAndParse(ctx context.Context, path string, params map[st
 		return nil, nil, RspError{Err: fmt.Errorf("got HTTP Status %q", httpRsp.Status), StatusCode: httpRsp.StatusCode, Body: body}
 	}
 
-	if err := json.NewDecoder(bytes.NewReader(body)).Decode(rsp); err != nil {
+	dec := json.NewDecoder(bytes.NewReader(body))
+	if err := dec.Decode(rsp); err != nil {
 		return nil, nil, RspError{Err: err, StatusCode: httpRsp.StatusCode, Body: body}
+	}
+	// Decode stops after the first JSON value: anything but white space behind it is a malformed response.
+	if _, err := dec.Token(); err != io.EOF {
+		return nil, nil, RspError{Err: errors.New("trailing data after JSON response"), StatusCode: httpRsp.StatusCode, Body: body}
 	}
 
 	return httpRsp, body, nil
